@@ -49,11 +49,12 @@ def sgd_grid(full):
 
 
 def adam_grid(full):
+    # (32-bit integers in TLC: beta and eps grids are kept coarse so that three bias-corrected steps stay exact)
     out = []
     for lr in [(1, 2)] + ([(1, 4)] if full else []):
         for b1 in [(1, 2)] + ([(3, 4)] if full else []):
-            for b2 in [(1, 2)] + ([(3, 4)] if full else []):
-                for eps in [(1, 8)] + ([(1, 1024)] if full else []):
+            for b2 in [(1, 2)]:
+                for eps in [(1, 8)] + ([(1, 16)] if full else []):
                     for w in [(0, 1), (1, 4)]:
                         for mx in (False, True):
                             out.append(dict(lr=Q(*lr), b1=Q(*b1), b2=Q(*b2), eps=Q(*eps), wd=Q(*w), maximize=mx))
